@@ -114,14 +114,14 @@ Definition blocks_unchanged_statement (fx : fixes) : Prop := forall st c o st',
 (* 12. a REJECTED fast-forward response replaces the application state (snapshot 99) ... *)
 Lemma w_restore_before_check :
   handle asis st_catching_up (RFastForward (with_frame_hash good_ff false) 99 [50]) =
-    (Err, mkNS 1 1000 3 [10; 11] 99 [] false) /\
+    (Err, mkNS 1 1000 3 [10; 11] 99 [] false [1; 2] [] true) /\
   handle repaired st_catching_up (RFastForward (with_frame_hash good_ff false) 99 [50]) = (Err, st_catching_up).
 Proof. vm_compute. repeat split. Qed.
 
 (* 13. ... and a response that passes the checks but cannot be inserted loses the delivered blocks *)
 Lemma w_reset_not_atomic :
   handle asis st_catching_up (RFastForward (with_insert good_ff false) 99 [50]) =
-    (Err, mkNS 1 1000 3 [] 99 [] false) /\
+    (Err, mkNS 1 1000 3 [] 99 [] false [] [] true) /\
   handle repaired st_catching_up (RFastForward (with_insert good_ff false) 99 [50]) = (Err, st_catching_up).
 Proof. vm_compute. repeat split. Qed.
 
@@ -129,7 +129,7 @@ Lemma blocks_unchanged_asis_refuted : ~ blocks_unchanged_statement asis.
 Proof.
   intros H.
   destruct (H st_catching_up (RFastForward (with_frame_hash good_ff false) 99 [50]) Err
-              (mkNS 1 1000 3 [10; 11] 99 [] false)) as [[_ Ha]|[Ho _]].
+              (mkNS 1 1000 3 [10; 11] 99 [] false [1; 2] [] true)) as [[_ Ha]|[Ho _]].
   - vm_compute; reflexivity.
   - vm_compute in Ha. discriminate Ha.
   - discriminate Ho.
@@ -137,25 +137,26 @@ Qed.
 
 Definition still_serves_statement (fx : fixes) : Prop := forall st c v,
   ns_locked st = false ->
+  heads_ok (ns_known st) (ns_heads st) = true ->
   is_request v = true ->
   fst (handle fx st v) = Ok tt ->
   fst (handle fx (snd (handle fx st c)) v) = Ok tt.
 
 (* 14. after one validly signed event carrying a malformed block signature, every later VALID
        eager sync is answered with an error *)
-Definition poison : cmd := CEager good_event [mkPE true true g_bytes s_abc false].
+Definition poison : cmd := CEager good_event [mkPE true true g_bytes s_abc false] good_meta.
 Lemma w_wedge :
-  fst (handle asis st_babbling (CEager good_event [])) = Ok tt /\
+  fst (handle asis st_babbling (CEager good_event [] good_meta)) = Ok tt /\
   fst (handle asis st_babbling poison) = Err /\
-  fst (handle asis (snd (handle asis st_babbling poison)) (CEager good_event [])) = Err /\
-  fst (handle asis (snd (handle asis (snd (handle asis st_babbling poison)) (CEager good_event []))) (CEager good_event [])) = Err /\
-  fst (handle repaired (snd (handle repaired st_babbling poison)) (CEager good_event [])) = Ok tt.
+  fst (handle asis (snd (handle asis st_babbling poison)) (CEager good_event [] good_meta)) = Err /\
+  fst (handle asis (snd (handle asis (snd (handle asis st_babbling poison)) (CEager good_event [] good_meta))) (CEager good_event [] good_meta)) = Err /\
+  fst (handle repaired (snd (handle repaired st_babbling poison)) (CEager good_event [] good_meta)) = Ok tt.
 Proof. vm_compute. repeat split. Qed.
 
 Lemma still_serves_asis_refuted : ~ still_serves_statement asis.
 Proof.
-  intros H. specialize (H st_babbling poison (CEager good_event []) eq_refl eq_refl).
-  assert (E : fst (handle asis st_babbling (CEager good_event [])) = Ok tt) by (vm_compute; reflexivity).
+  intros H. specialize (H st_babbling poison (CEager good_event [] good_meta) eq_refl eq_refl eq_refl).
+  assert (E : fst (handle asis st_babbling (CEager good_event [] good_meta)) = Ok tt) by (vm_compute; reflexivity).
   specialize (H E). vm_compute in H. discriminate H.
 Qed.
 
@@ -166,5 +167,20 @@ Lemma w_sync_diff_error :
   handle repaired st_suspended (CSync 10 true) = (Err, st_suspended) /\
   fst (handle repaired (snd (handle repaired st_babbling (CSync 10 true))) (CSync 10 false)) = Ok tt /\
   fst (handle repaired (leak_lock st_babbling) (CSync 10 false)) = Hang /\
-  fst (handle repaired (leak_lock st_babbling) (CEager good_event [])) = Hang.
+  fst (handle repaired (leak_lock st_babbling) (CEager good_event [] good_meta)) = Hang.
+Proof. vm_compute. repeat split. Qed.
+
+(* 16. a validly signed fork of a validator's own chain (refused with a "normal" self-parent error) is
+       skipped without an error and is a no-op for a busy node; afterwards a valid push of another
+       peer is accepted. What a core.sync that recorded the NOT inserted fork as the sender's head would
+       cause instead (seeded/C08-r2): every later valid push fails in recordHeads *)
+Lemma w_ill_chained_event :
+  handle asis st_babbling (CEager fork_event [] fork_meta) = (Ok tt, st_babbling) /\
+  handle repaired st_babbling (CEager fork_event [] fork_meta) = (Ok tt, st_babbling) /\
+  fst (handle repaired (snd (handle repaired st_babbling (CEager fork_event [] fork_meta)))
+                       (CEager good_event [] (mkEM 100 8 8 false))) = Ok tt /\
+  heads_ok (ns_known (poison_head st_babbling 7 999)) (ns_heads (poison_head st_babbling 7 999)) = false /\
+  fst (handle repaired (poison_head st_babbling 7 999) (CEager good_event [] (mkEM 100 8 8 false))) = Err /\
+  fst (handle repaired (snd (handle repaired (poison_head st_babbling 7 999) (CEager good_event [] (mkEM 100 8 8 false))))
+                       (CEager good_event [] (mkEM 101 8 8 false))) = Err.
 Proof. vm_compute. repeat split. Qed.
